@@ -2,6 +2,7 @@ import OxiddModel.Util.Proto
 import OxiddModel.Mtbdd.Model
 import OxiddModel.Mtbdd.F64
 import Std.Data.HashMap
+import OxiddModel.Reorder.Model
 /-!
 # C10 — line-protocol driver `mtbdd`
 
@@ -17,7 +18,15 @@ Diagram lines (after `mgr <nvars> [f64]`, which answers `ok`)
 const h <terminal> | var h <v> | op h add|sub|mul|div|min|max h1 h2
 ite h c t e | restrict h f cube          -> the unfolded tree of h, or `err precond`
 eval h <bits>                            -> <terminal>  (bit i of <bits> is the value of variable i)
+clone h a | drop a | dropall             -> ok
+eq a b                                   -> 1 | 0          (handle equality)
+gc                                       -> <inner nodes> <terminals> stored after the collection
+rcchk                                    -> ok             (reference-count oracle, harness side)
+order v… [seq=1]                         -> the new level→variable list (`set_var_order[_seq]`)
 ```
+`mgr <nvars> [f64] [inner=<k> terms=<k>]`: the capacities select the capped manager of the C14
+cases in the harness (which prints the output of an uncapped reference manager); the model
+ignores them.
 Trees: `(v<k> <then> <else>)`, terminals `#<int> | #+inf | #-inf | #nan | #f<16 hex digits>`.
 -/
 namespace OxiddModel.Mtbdd
@@ -80,62 +89,122 @@ def opOfString : String → Option Op
   | "max" => some .max
   | _ => none
 
-def showTree {T : Type} (tok : T → String) : MT T → String
+/-- trees are kept in *levels*; they are printed with variable numbers -/
+def showTree {T : Type} (tok : T → String) (l2v : Array Nat) : MT T → String
   | .leaf t => "#" ++ tok t
-  | .node l t e => "(v" ++ toString l ++ " " ++ showTree tok t ++ " " ++ showTree tok e ++ ")"
+  | .node l t e =>
+    "(v" ++ toString (l2v.getD l l) ++ " " ++ showTree tok l2v t ++ " " ++ showTree tok l2v e ++ ")"
 
-/-- `01…` → assignment (variable `i` is character `i`) -/
+/-- `01…` → assignment of the *variables* (variable `i` is character `i`) -/
 def bitsParse (n : Nat) (s : String) : Option (Nat → Bool) :=
   let cs := s.toList
   if cs.length ≠ n ∨ cs.any (fun c => c ≠ '0' ∧ c ≠ '1') then none
   else some (fun i => cs.getD i '0' = '1')
 
-/-- one diagram-level line on a manager with `n` variables and handle table `hs` -/
-def stepMgr {T : Type} [DecidableEq T] (K : Kit T) (n : Nat) (hs : Std.HashMap String (MT T))
-    (ws : List String) : Std.HashMap String (MT T) × String :=
+/-- the manager as far as the tree level sees it: variable order and the live handles -/
+structure MS (T : Type) where
+  n : Nat
+  l2v : Array Nat
+  v2l : Array Nat
+  hs : Std.HashMap String (MT T)
+
+/-- distinct sub-diagrams (inner nodes and terminals) reachable from `t`, added to `acc` -/
+def subtrees {T : Type} [DecidableEq T] : MT T → List (MT T) → List (MT T)
+  | .leaf x, acc => if acc.contains (.leaf x) then acc else .leaf x :: acc
+  | .node l t e, acc =>
+    if acc.contains (.node l t e) then acc
+    else .node l t e :: subtrees e (subtrees t acc)
+
+def isLeaf {T : Type} : MT T → Bool
+  | .leaf _ => true
+  | .node _ _ _ => false
+
+/-- rebuild a tree for a new variable order through the model's own `applyIte`/`mk`: `old` maps old
+levels to variables, `v2l` is the new variable→level map -/
+def reorderTree {T : Type} [DecidableEq T] (L : TermOps T) (v2l old : Array Nat) : MT T → MT T
+  | .leaf x => .leaf x
+  | .node l t e =>
+    applyIte L (var L (v2l.getD (old.getD l l) 0)) (reorderTree L v2l old t) (reorderTree L v2l old e)
+
+/-- one diagram-level line -/
+def stepMgr {T : Type} [DecidableEq T] (K : Kit T) (s : MS T) (ws : List String) : MS T × String :=
+  let hs := s.hs
   -- rebinding a handle replaces it
-  let bind (h : String) (t : MT T) := (hs.insert h t, showTree K.tok t)
+  let bind (h : String) (t : MT T) := ({ s with hs := hs.insert h t }, showTree K.tok s.l2v t)
   match ws with
   | ["const", h, v] =>
     match K.parse v with
     | some t => bind h (constant t)
-    | none => (hs, "bad-op")
+    | none => (s, "bad-op")
   | ["var", h, v] =>
     match v.toNat? with
-    | some v => if v < n then bind h (var K.ops v) else (hs, "err range")
-    | none => (hs, "bad-op")
+    | some v => if v < s.n then bind h (var K.ops (s.v2l.getD v v)) else (s, "err range")
+    | none => (s, "bad-op")
   | ["op", h, o, a, b] =>
     match opOfString o with
-    | none => (hs, "bad-op")
+    | none => (s, "bad-op")
     | some o =>
       match hs[a]?, hs[b]? with
       | some f, some g => bind h (applyBin K.ops o f g)
-      | _, _ => (hs, "err handle")
+      | _, _ => (s, "err handle")
   | ["ite", h, c, a, b] =>
     match hs[c]?, hs[a]?, hs[b]? with
     | some fc, some fa, some fb =>
-      if zeroOneB K.ops fc then bind h (applyIte K.ops fc fa fb) else (hs, "err precond")
-    | _, _, _ => (hs, "err handle")
+      if zeroOneB K.ops fc then bind h (applyIte K.ops fc fa fb) else (s, "err precond")
+    | _, _, _ => (s, "err handle")
   | ["restrict", h, a, c] =>
     match hs[a]?, hs[c]? with
     | some f, some vars =>
       match cubeLits K.ops vars with
       | some _ => bind h (restrict K.ops f vars)
-      | none => (hs, "err precond")
-    | _, _ => (hs, "err handle")
+      | none => (s, "err precond")
+    | _, _ => (s, "err handle")
   | ["eval", h, bits] =>
     match hs[h]? with
     | some f =>
-      match bitsParse n bits with
-      | some σ => (hs, K.tok (f.eval σ))
-      | none => (hs, "bad-op")
-    | none => (hs, "err handle")
-  | _ => (hs, "bad-op")
+      match bitsParse s.n bits with
+      | some σ => (s, K.tok (f.eval (fun l => σ (s.l2v.getD l l))))
+      | none => (s, "bad-op")
+    | none => (s, "err handle")
+  | ["clone", h, a] =>
+    match hs[a]? with
+    | some f => ({ s with hs := hs.insert h f }, "ok")
+    | none => (s, "err handle")
+  | ["drop", a] =>
+    if hs.contains a then ({ s with hs := hs.erase a }, "ok") else (s, "err handle")
+  | ["dropall"] => ({ s with hs := {} }, "ok")
+  | ["eq", a, b] =>
+    match hs[a]?, hs[b]? with
+    | some f, some g => (s, boolStr (decide (f = g)))
+    | _, _ => (s, "err handle")
+  | ["gc"] =>
+    -- after a collection exactly the nodes and terminals reachable from live handles remain
+    let all := hs.fold (fun acc _ t => subtrees t acc) []
+    let terms := (all.filter isLeaf).length
+    (s, s!"{all.length - terms} {terms}")
+  | ["rcchk"] => (s, "ok")
+  | "order" :: rest =>
+    -- `seq=1` selects `set_var_order_seq` in the harness; same result
+    match (rest.filter (fun w => !w.contains '=')).mapM String.toNat? with
+    | none => (s, "bad-op")
+    | some order =>
+      if order.all (· < s.n) && order.eraseDups.length = order.length then
+        let l2v := if order.length ≤ 1 then s.l2v else Reorder.newL2v s.l2v s.v2l order
+        let v2l := Id.run do
+          let mut a := Array.replicate s.n 0
+          for l in [0 : s.n] do
+            a := a.set! (l2v.getD l 0) l
+          return a
+        let hs' := hs.fold (fun acc k t => acc.insert k (reorderTree K.ops v2l s.l2v t))
+          ({} : Std.HashMap String (MT T))
+        ({ s with l2v := l2v, v2l := v2l, hs := hs' }, joinSp (l2v.toList.map toString))
+      else (s, "bad-op")
+  | _ => (s, "bad-op")
 
 inductive St where
   | none
-  | i (n : Nat) (hs : Std.HashMap String (MT I64))
-  | f (n : Nat) (hs : Std.HashMap String (MT UInt64))
+  | i (s : MS I64)
+  | f (s : MS UInt64)
 
 def scalarI64 (o : String) (a b : I64) : String :=
   match o with
@@ -155,6 +224,10 @@ def scalarF64 (o : String) (a b : UInt64) : String :=
   | "cmp" => cmpTok (F64.partialCmp a b)
   | _ => "bad-op"
 
+def diagramOps : List String :=
+  ["const", "var", "op", "ite", "restrict", "eval", "clone", "drop", "dropall", "eq", "gc", "rcchk",
+    "order"]
+
 def step (s : St) (line : String) : St × String :=
   match words line with
   | ["i64", o, a, b] =>
@@ -165,20 +238,18 @@ def step (s : St) (line : String) : St × String :=
     match hexParse a, hexParse b with
     | some a, some b => (s, scalarF64 o (F64.ofBits a) (F64.ofBits b))
     | _, _ => (s, "bad-op")
-  | ["mgr", n] =>
-    match n.toNat? with
-    | some n => (.i n {}, "ok")
-    | none => (s, "bad-op")
-  | ["mgr", n, "f64"] =>
-    match n.toNat? with
-    | some n => (.f n {}, "ok")
-    | none => (s, "bad-op")
+  | "mgr" :: n :: rest =>
+    -- `inner=<k> terms=<k>` (capacities of the capped manager, C14) do not concern the model
+    let opts := rest.filter (fun w => !w.contains '=')
+    match n.toNat?, opts with
+    | some n, [] => (.i { n := n, l2v := Array.range n, v2l := Array.range n, hs := {} }, "ok")
+    | some n, ["f64"] => (.f { n := n, l2v := Array.range n, v2l := Array.range n, hs := {} }, "ok")
+    | _, _ => (s, "bad-op")
   | ws =>
     match s with
-    | .none => (s, if ws.head? ∈ [some "const", some "var", some "op", some "ite", some "restrict",
-        some "eval"] then "err nomgr" else "bad-op")
-    | .i n hs => let (hs', o) := stepMgr i64Kit n hs ws; (.i n hs', o)
-    | .f n hs => let (hs', o) := stepMgr f64Kit n hs ws; (.f n hs', o)
+    | .none => (s, if (ws.head?.map diagramOps.contains).getD false then "err nomgr" else "bad-op")
+    | .i m => let (m', o) := stepMgr i64Kit m ws; (.i m', o)
+    | .f m => let (m', o) := stepMgr f64Kit m ws; (.f m', o)
 
 def proto : Proto := { σ := St, init := .none, step := step }
 
